@@ -171,6 +171,7 @@ def run(chk, prog):
 
     origin_names_through_the_getter(chk, prog, tr)
     operators_carry_origins_as_tabled(chk, prog)
+    range_bounds_from_the_right_end(chk, prog, tr)
     origins_rebuilt_on_push(chk, prog, tr, 'C07.origins-recomputed-on-push',
                             'StoryState::push_evaluation_stack rebuilds the origins of a list value from its items / origin '
                             'names: every push onto InkList::origins there is dominated by a clear of the same vector (or the '
@@ -309,6 +310,35 @@ def operators_carry_origins_as_tabled(chk, prog):
                    'then belongs to %s, and LIST_ALL / LIST_INVERT of it print %s' % (
                        name, 'now hands' if got else 'no longer hands', 'does not' if got else 'does',
                        'the receiver\'s lists' if got else 'no list', 'their items' if got else 'nothing'), f.loc(0))
+
+
+def range_bounds_from_the_right_end(chk, prog, tr):
+    RI = 'C07.range-bounds-from-the-right-end'
+    chk.rule(RI, 'LIST_RANGE(list, min, max): when a bound is itself a list, the lower bound stands for the smallest item '
+             'of that list and the upper bound for its largest. In list_with_sub_range the value compared as the lower '
+             'limit derives from get_min_item of the min argument (never get_max_item) and the upper limit from '
+             'get_max_item of the max argument.')
+    f = prog.fn('InkList::list_with_sub_range')
+    if not chk.anchor(RI, 'InkList::list_with_sub_range', f):
+        return
+    lt = Tracer(prog, transparent=lambda cs: True, use_summaries=False)
+    seen = {}
+    for g in prog.with_closures(f):
+        for bb, t in g.calls():
+            cs = callee_short(t)
+            if cs in ('InkList::get_min_item', 'InkList::get_max_item') and t['args']:
+                at = lt.prov(g, t['args'][0])
+                for which, arg in (('lower', 'arg:2'), ('upper', 'arg:3')):
+                    if arg in at and g is f:
+                        seen.setdefault(which, set()).add(cs.rsplit('::', 1)[-1])
+    if chk.anchor(RI, 'extremes taken of the bound arguments', seen):
+        chk.decide(RI, chk.key(RI, 'lower'), seen.get('lower') == {'get_min_item'},
+                   'a list-valued lower bound contributes its minimum',
+                   'list_with_sub_range takes %s of a list-valued lower bound: LIST_RANGE(all, (b, d), e) starts at d '
+                   'instead of b' % sorted(seen.get('lower', [])), f.loc(0))
+        chk.decide(RI, chk.key(RI, 'upper'), seen.get('upper') == {'get_max_item'},
+                   'a list-valued upper bound contributes its maximum',
+                   'list_with_sub_range takes %s of a list-valued upper bound' % sorted(seen.get('upper', [])), f.loc(0))
 
 
 def origins_rebuilt_on_push(chk, prog, tr, RE, text):
